@@ -192,6 +192,96 @@ class Parser:
         return ("block", tuple(l))
 
 
+class ThreadParser(Parser):
+    """Thread.cpp / Thread.hpp: the role of the flag is played by the handle `thread` (truth value: attached).  Input is the
+    normalised POSIX branch in which tools/areas/sync.py has replaced the functor statements of the member overload by
+    `STOREFUNC ;` and inlined `return start(...)` / `join()`."""
+    THREAD_CALLS = {
+        "pthread_create": ("threadCreate", r"& thread , 0 , \( void \* \( \* \) \( void \* \) \) proc , param"),
+        "pthread_join": ("threadJoin", r"\( pthread_t \) thread , & retval"),
+    }
+
+    def __init__(self, text, what):
+        super().__init__(text, what)
+        self.shadow = False          # after `pthread_t thread;` the bare name is the local
+
+    def call(self):
+        name = self.take()
+        if name not in self.THREAD_CALLS:
+            raise CfgErr(f"{self.what}: call of {name} is not in the translated subset")
+        self.take("(")
+        depth, args = 1, []
+        while depth:
+            x = self.take()
+            depth += {"(": 1, ")": -1}.get(x, 0)
+            if depth:
+                args.append(x)
+        if not re.fullmatch(self.THREAD_CALLS[name][1], " ".join(args)):
+            raise CfgErr(f"{self.what}: unexpected arguments of {name}: {' '.join(args)}")
+        if name == "pthread_create" and not self.shadow:
+            raise CfgErr(f"{self.what}: pthread_create writes the member `thread` directly")
+        return self.THREAD_CALLS[name][0]
+
+    def is_member(self):
+        return (self.peek() == "thread" and not self.shadow) or (self.peek() == "this" and self.peek(1) == "-" and self.peek(2) == ">" and self.peek(3) == "thread")
+
+    def take_member(self):
+        if self.peek() == "this":
+            self.take(); self.take("-"); self.take(">")
+        self.take("thread")
+
+    def bun(self):
+        if self.is_member():
+            self.take_member()
+            return ("flag",)
+        return super().bun()
+
+    def cond(self):
+        return self.callcmp() if self.peek() in self.THREAD_CALLS else self.bexpr()
+
+    def stmt(self):
+        x = self.peek()
+        if x == "pthread_t" and self.peek(1) == "thread" and self.peek(2) == ";":
+            self.i += 3
+            self.shadow = True
+            return ("block", ())
+        if x == "void" and [self.peek(k) for k in range(1, 4)] == ["*", "retval", ";"]:
+            self.i += 4
+            return ("block", ())
+        if x == "STOREFUNC":
+            self.take(); self.take(";")
+            return ("func",)
+        if x == "VERIFY":
+            self.take(); self.take("(")
+            e = self.callcmp()
+            self.take(")"); self.take(";")
+            return ("verify", e)
+        if x == "return":
+            rest = []
+            k = 1
+            while self.peek(k) not in (";", None):
+                rest.append(self.peek(k))
+                k += 1
+            if rest == ["0"]:
+                self.i += 3
+                return ("return", ("zero",))
+            if rest == ["(", "uint", ")", "(", "intptr_t", ")", "retval"]:
+                self.i += 9
+                return ("return", ("joined",))
+        if self.is_member() and x != "if":
+            self.take_member()
+            self.take("=")
+            if self.peek() == "0":
+                self.take(); self.take(";")
+                return ("assign", "signaled", ("false",))
+            for tk in ("(", "void", "*", ")", "thread", ";"):
+                self.take(tk)
+            if not self.shadow:
+                raise CfgErr(f"{self.what}: `thread = (void*)thread` without the local handle")
+            return ("assign", "signaled", ("true",))
+        return super().stmt()
+
+
 # ---- symbolic execution --------------------------------------------------------------------------
 # continuation = tuple of frames, innermost first:  ("seq", stmts, idx)  rest of a block;  ("loop", loopstmt)  re-test the loop
 class Run:
@@ -225,14 +315,16 @@ class Run:
 
     def run(self, cont, env, flag):
         """executes library code until the next POSIX call or the return; returns
-           ("call", pcall, use, cont, env, flag, written) with use = ("verify"|"if"|"ret"|"bare", ...)   or   ("ret", value, flag, written)"""
+           ("call", pcall, use, cont, env, flag, written, funcw) with use = ("verify"|"if"|"ret"|"bare", ...)   or
+           ("ret", value, flag, written, funcw); value = None (void) | True | False | "zero" | "joined" """
         env = dict(env)
         written = None
+        funcw = False        # the functor of Thread::start(obj, member) was stored
         todo = None          # statement to execute next
         for _ in range(2000):
             if todo is None:
                 if not cont:
-                    return ("ret", None, flag, written)          # falls off the end of a void function
+                    return ("ret", None, flag, written, funcw)   # falls off the end of a void function
                 f = cont[0]
                 if f[0] == "seq":
                     _, stmts, idx = f
@@ -255,7 +347,7 @@ class Run:
             elif k == "if":
                 c = s[1]
                 if c[0] == "callcmp":
-                    return ("call", c[1], ("if", c[2], s[2], s[3]), cont, env, flag, written)
+                    return ("call", c[1], ("if", c[2], s[2], s[3]), cont, env, flag, written, funcw)
                 br = s[2] if self.ev(c, env, flag) else s[3]
                 todo = br
             elif k == "loop":
@@ -264,14 +356,18 @@ class Run:
                 cont = self.unwind(cont, k)
             elif k == "return":
                 if s[1] is None:
-                    return ("ret", None, flag, written)
+                    return ("ret", None, flag, written, funcw)
                 if s[1][0] == "callcmp":
-                    return ("call", s[1][1], ("ret", s[1][2]), cont, env, flag, written)
-                return ("ret", self.ev(s[1], env, flag), flag, written)
+                    return ("call", s[1][1], ("ret", s[1][2]), cont, env, flag, written, funcw)
+                if s[1][0] in ("zero", "joined"):
+                    return ("ret", s[1][0], flag, written, funcw)
+                return ("ret", self.ev(s[1], env, flag), flag, written, funcw)
             elif k == "verify":
-                return ("call", s[1][1], ("verify", s[1][2]), cont, env, flag, written)
+                return ("call", s[1][1], ("verify", s[1][2]), cont, env, flag, written, funcw)
             elif k == "bare":
-                return ("call", s[1], ("bare",), cont, env, flag, written)
+                return ("call", s[1], ("bare",), cont, env, flag, written, funcw)
+            elif k == "func":
+                funcw = True
             elif k == "assign":
                 v = self.ev(s[2], env, flag)
                 if s[1] == "signaled":
@@ -291,27 +387,28 @@ class Run:
         if k == "verify":
             return None if not truth else self.run(cont, env, flag)
         if k == "ret":
-            return ("ret", truth, flag, None)
+            return ("ret", truth, flag, None, False)
         br = use[2] if truth else use[3]
         return self.run(((("seq", (br,), 0),) if br is not None else ()) + cont, env, flag)
 
 
-def table(text, what):
-    """returns (entry edges [flag=T, flag=F], nodes [(call, [okT, okF, failT, failF])]); an edge is None or (store, ("node", n) | ("ret", v))"""
-    p = Parser(text, what)
+def table(text, what, parser=None):
+    """returns (entry edges [flag=T, flag=F], nodes [(call, [okT, okF, failT, failF])]); an edge is None or
+    (flag store | None, functor stored?, ("node", n) | ("ret", v))"""
+    p = (parser or Parser)(text, what)
     ast = p.body()
     r = Run(what)
     keys, nodes, pending = {}, [], []
 
     def key(res):
-        _, c, use, cont, env, _, _ = res
+        _, c, use, cont, env = res[:5]
         return (c, use, cont, tuple(sorted(env.items())))
 
     def edge(res):
         if res is None:
             return None
         if res[0] == "ret":
-            return (res[3], ("ret", res[1]))
+            return (res[3], res[4], ("ret", res[1]))
         k = key(res)
         if k not in keys:
             keys[k] = len(nodes)
@@ -319,12 +416,12 @@ def table(text, what):
             pending.append(res)
             if len(nodes) > 40:
                 raise CfgErr(f"{what}: more than 40 program points")
-        return (res[6], ("node", keys[k]))
+        return (res[6], res[7], ("node", keys[k]))
 
     entry = [edge(r.run((("seq", (ast,), 0),), {}, fl)) for fl in (True, False)]
     i = 0
     while i < len(pending):
-        _, c, use, cont, env, _, _ = pending[i]
+        _, c, use, cont, env = pending[i][:5]
         nodes[i][1] = [edge(r.resume(use, cont, env, ok, fl)) for ok in (True, False) for fl in (True, False)]
         i += 1
     return minimise(entry, [(c, es) for c, es in nodes])
@@ -337,7 +434,7 @@ def minimise(entry, nodes):
     while True:
         def sig(i):
             c, es = nodes[i]
-            return (cls[i],) + tuple(None if e is None else (e[0], ("node", cls[e[1][1]]) if e[1][0] == "node" else e[1]) for e in es)
+            return (cls[i],) + tuple(None if e is None else (e[0], e[1], ("node", cls[e[2][1]]) if e[2][0] == "node" else e[2]) for e in es)
         sigs = [sig(i) for i in range(len(nodes))]
         if len(set(sigs)) == len(set(cls)):
             break
@@ -348,8 +445,8 @@ def minimise(entry, nodes):
     order, seen = [], {}
 
     def visit(e):
-        if e is not None and e[1][0] == "node":
-            c = cls[e[1][1]]
+        if e is not None and e[2][0] == "node":
+            c = cls[e[2][1]]
             if c not in seen:
                 seen[c] = len(order)
                 order.append(rep[c])
@@ -360,7 +457,7 @@ def minimise(entry, nodes):
         for e in nodes[order[k]][1]:
             visit(e)
         k += 1
-    ren = lambda e: None if e is None else (e[0], ("node", seen[cls[e[1][1]]]) if e[1][0] == "node" else e[1])
+    ren = lambda e: None if e is None else (e[0], e[1], ("node", seen[cls[e[2][1]]]) if e[2][0] == "node" else e[2])
     return [ren(e) for e in entry], [(nodes[i][0], [ren(e) for e in nodes[i][1]]) for i in order]
 
 
@@ -403,13 +500,13 @@ def strip_deadline(norm_text, what):
 def lean_edge(e):
     if e is None:
         return "none"
-    st, nx = e
+    st, fw, nx = e
     s = "none" if st is None else f"(some {'true' if st else 'false'})"
     if nx[0] == "node":
         n = f"(.node {nx[1]})"
     else:
-        n = "(.ret none)" if nx[1] is None else f"(.ret (some {'true' if nx[1] else 'false'}))"
-    return f"(some ⟨{s}, {n}⟩)"
+        n = {None: "(.ret .void)", True: "(.ret (.bool true))", False: "(.ret (.bool false))", "zero": "(.ret .zero)", "joined": "(.ret .joined)"}[nx[1]]
+    return f"(some ⟨{s}, {'true' if fw else 'false'}, {n}⟩)"
 
 
 def lean_fn(name, doc, tab):
